@@ -73,12 +73,12 @@ class _WriterImpl(IRVisitor):
         qubit_args = []
         if gate.arguments is not None:
             for arg in gate.arguments:
-                pos = gate.arguments.index(arg)
-                if gate_generator[pos] not in qubit_function_keys:
+                if isinstance(arg, Qubit):
+                    qubit_args.append(arg.accept(self))
+                else:
                     params.append(arg.accept(self))
-                    gate_name += f"({', '.join(params)})"
-                elif gate_generator[pos] in qubit_function_keys and isinstance(arg, QubitLike.__args__):  # type: ignore
-                    qubit_args.append(Qubit(arg).accept(self))
+        if params:
+            gate_name += f"({', '.join(params)})"
 
         self.output += f"{gate_name} {', '.join(qubit_args)}\n"
 
